@@ -413,4 +413,268 @@ theorem placeTaken_spine (S : Schema) (d : Dfa) (fty : TypeId) (u : Slice) (sd :
     rw [hadd] at hp
     exact addToFragment_deep fd placed0 _ p t a m kk k hp (fromArray_append_elem pre t a m kk) hkk
 
+/-! ### the schema guard `labelsOKB`, as a proposition -/
+
+def LabelsOK (S : Schema) : Prop := ∀ w q e, e ∈ (S.dfa w).edgesOf q → e.1 < S.nodes.size
+
+theorem labelsOK_of_B (S : Schema) (h : S.labelsOKB = true) : LabelsOK S := by
+  intro w q e he
+  by_cases hq : q < (S.dfa w).size
+  · by_cases hw : w < S.nodes.size
+    · simp only [Schema.labelsOKB, List.all_eq_true, List.mem_range, decide_eq_true_eq] at h
+      exact h w hw q hq e he
+    · have : (S.dfa w).size = 0 := by
+        simp only [Schema.dfa, Schema.nodeType]
+        rw [getElem!_neg S.nodes w hw]
+        rfl
+      omega
+  · have : (S.dfa w).edgesOf q = [] := by
+      simp only [Dfa.edgesOf]
+      rw [Array.getElem?_eq_none (by omega)]
+    rw [this] at he
+    simp at he
+
+/-! ### the in-step invariant -/
+
+structure InStep (st : FitState) : Prop where
+  frok : FrOK st.frontier
+  ne : st.frontier ≠ []
+  sp : rspineOK (st.frontier.length - 1) st.placed
+
+theorem InStep.toB {st : FitState} (h : InStep st) : st.inStepB = true := by
+  simp only [FitState.inStepB, Bool.and_eq_true, Bool.not_eq_eq_eq_not, Bool.not_true, List.all_eq_true,
+    decide_eq_true_eq]
+  refine ⟨⟨?_, ?_⟩, rspineOK_spineR _ _ h.sp⟩
+  · cases hf : st.frontier with
+    | nil => exact absurd hf h.ne
+    | cons a l => rfl
+  · intro it hit
+    obtain ⟨q, hq⟩ := h.frok it hit
+    simp [hq]
+
+theorem fragment_eq_lvl {u : Slice} {f : Fittable} {lvl : Option Node × List Node}
+    (hlvl : sliceLevel u f.sliceDepth = .ok lvl) (hpar : f.parent = lvl.1) : f.fragment u = lvl.2 := by
+  unfold Fittable.fragment
+  rcases sliceLevel_ok hlvl with ⟨_, rfl⟩ | ⟨_, p, rest, _, rfl⟩
+  · simp only at hpar; rw [hpar]
+  · simp only at hpar; rw [hpar]
+
+theorem ite_ok_cases {α : Type} {b : Bool} {x y : FM α} {r : α} (h : (if b = true then x else y) = .ok r) :
+    (b = true ∧ x = .ok r) ∨ (b = false ∧ y = .ok r) := by
+  cases b with
+  | true => exact .inl ⟨rfl, by simpa using h⟩
+  | false => exact .inr ⟨rfl, by simpa using h⟩
+
+/-- **`place_nodes` keeps `placed` and the frontier in step** when the unplaced slice is well-formed
+    and not of size 0 -/
+theorem placeNodes_inStep (S : Schema) (hdet : DetS S) (hf : FillersOK S) (hw : WrapOK S) (hlab : LabelsOK S)
+    (st : FitState) (inv : InStep st) (hU1 : st.unplaced.openEnd ≤ spineR st.unplaced.content)
+    (hU2 : st.unplaced.openStart ≤ spineL st.unplaced.content) (hsz : (st.unplaced.size == 0) = false)
+    (f : Fittable) (hfit : findFittable S st = .ok (some f)) (st' : FitState)
+    (h : placeNodes S st f = .ok st') : InStep st' := by
+  obtain ⟨lvl, it, hsd, hlvl, hpar, hit, kind, _⟩ := findFittable_kind S st f hfit
+  have hfragment := fragment_eq_lvl hlvl hpar
+  have hcon := sliceLevel_contentAt hlvl
+  have hfdlt : f.frontierDepth < st.frontier.length := by
+    rcases Nat.lt_or_ge f.frontierDepth st.frontier.length with h1 | h1
+    · exact h1
+    · rw [List.getElem?_eq_none h1] at hit; simp at hit
+  -- closing down to the fittable's depth
+  obtain ⟨c1, hc1, hc1f, hc1s⟩ := closeMany_ok S hdet hf (st.frontier.length - 1 - f.frontierDepth)
+    st.frontier st.placed inv.frok (by omega) inv.sp
+  have hc1f' : c1.1 = st.frontier.take (f.frontierDepth + 1) := by
+    rw [hc1f]; congr 1; omega
+  have hc1len : c1.1.length = f.frontierDepth + 1 := by
+    rw [hc1f', List.length_take]; omega
+  have hc1ok : FrOK c1.1 := by rw [hc1f']; exact inv.frok.take _
+  have hc1it : c1.1[f.frontierDepth]? = some it := by
+    rw [hc1f', List.getElem?_take_of_lt (by omega)]; exact hit
+  have hc1last : c1.1.getLast? = some it := by
+    rw [List.getLast?_eq_getElem?, hc1len, Nat.add_sub_cancel]; exact hc1it
+  -- the frontier item holds a match
+  obtain ⟨q, hq⟩ := inv.frok it (List.mem_of_getElem? hit)
+  have hchain : ChainFrom S (S.dfa it.ty) q (f.wrap.getD []) := by
+    cases kind with
+    | direct _ _ _ _ _ _ hwn => rw [hwn]; trivial
+    | inject _ _ _ _ _ _ _ hwn => rw [hwn]; trivial
+    | empty _ _ _ _ hwn => rw [hwn]; trivial
+    | wrap fst q' w hfst hq' hfw _ hwn =>
+      rw [hwn]
+      rw [hq] at hq'
+      simp only [Option.some.injEq] at hq'
+      subst hq'
+      exact findWrappingTypes_chain S _ _ _ w hfw
+  obtain ⟨c2, hc2, hc2ok, hc2len, hc2s, _, hc2pre, hc2top⟩ :=
+    openMany_ok S hw (f.wrap.getD []) c1.1 c1.2 it q hc1last hq hchain hc1ok hc1s
+  rw [hc1len] at hc2len hc2top
+  simp only [Nat.add_sub_cancel] at hc2top
+  have hitem : ∃ item q0, c2.1[f.frontierDepth]? = some item ∧ item.st = some q0 ∧ item.ty = it.ty ∧
+      (∀ w0 rest, f.wrap.getD [] = w0 :: rest → (S.dfa it.ty).matchType q w0 = some q0) := by
+    cases hws : f.wrap.getD [] with
+    | nil =>
+      rw [hws] at hc2
+      have := pure_ok hc2
+      subst this
+      exact ⟨it, q, hc1it, hq, rfl, fun _ _ h => by simp at h⟩
+    | cons w0 rest =>
+      have htop := hc2top w0 rest hws
+      rw [hws] at hchain
+      obtain ⟨q', hq'⟩ := Option.isSome_iff_exists.1 hchain.2.1
+      refine ⟨_, q', htop, by simp [hq'], rfl, ?_⟩
+      intro w0' rest' h
+      simp only [List.cons.injEq] at h
+      rw [← h.1]; exact hq'
+  obtain ⟨item0, q00, hitem0, hitq0, hitty0, hq0cons⟩ := hitem
+  -- peel the run
+  unfold placeNodes at h
+  rw [FM.bind_eq hc1, FM.bind_eq hc2] at h
+  simp only [hfragment] at h
+  obtain ⟨item, hgi, h⟩ := FM.bind_ok h
+  have hie : item = item0 := by
+    have := getItem_ok hgi
+    rw [hitem0] at this
+    simpa using this.symm
+  subst hie
+  obtain ⟨q0, hgs, h⟩ := FM.bind_ok h
+  have hq0e : q0 = q00 := by
+    have := getSt_ok hgs
+    rw [hitq0] at this
+    simpa using this.symm
+  subst hq0e
+  obtain ⟨q1, hq1, h⟩ := FM.bind_ok h
+  have hq1 := liftRaise_ok hq1
+  obtain ⟨tk, htk, h⟩ := FM.bind_ok h
+  obtain ⟨p, hp, h⟩ := FM.bind_ok h
+  obtain ⟨top, _, h⟩ := FM.bind_ok h
+  obtain ⟨c3, hc3, h⟩ := FM.bind_ok h
+  obtain ⟨fr4, hpush, h⟩ := FM.bind_ok h
+  obtain ⟨u', _, h⟩ := FM.bind_ok h
+  have := pure_ok h
+  subst this
+  have hset_len : (c2.1.set f.frontierDepth ⟨item.ty, some tk.2.1⟩).length = c2.1.length := List.length_set
+  have hset_ok : FrOK (c2.1.set f.frontierDepth ⟨item.ty, some tk.2.1⟩) := FrOK_set hc2ok _ _ ⟨_, rfl⟩
+  cases hws : f.wrap.getD [] with
+  | cons w0 rest =>
+    -- wrappers were opened: nothing is taken at the frontier level itself
+    have hnothing : tk = (0, q1, []) ∧ lvl.2 ≠ [] := by
+      cases kind with
+      | direct _ _ _ _ _ _ hwn => rw [hwn] at hws; simp at hws
+      | inject _ _ _ _ _ _ _ hwn => rw [hwn] at hws; simp at hws
+      | empty _ _ _ _ hwn => rw [hwn] at hws; simp at hws
+      | wrap fst q' w hfst hq' hfw hinj hwn =>
+        rw [hwn] at hws
+        simp only [Option.getD_some] at hws
+        subst hws
+        rw [hq] at hq'
+        simp only [Option.some.injEq] at hq'
+        subst hq'
+        obtain ⟨rest', hl2⟩ : ∃ rest', lvl.2 = fst :: rest' := by
+          cases hl : lvl.2 with
+          | nil => rw [hl] at hfst; simp at hfst
+          | cons a l => rw [hl] at hfst; simp at hfst; subst hfst; exact ⟨l, rfl⟩
+        have hm0 := hq0cons w0 rest (by rw [hwn]; rfl)
+        have hnm : (S.dfa it.ty).matchType q0 (S.tyOf fst) = none := by
+          by_cases hx : S.tyOf fst < S.nodes.size
+          · exact hw.2 it.ty q (S.tyOf fst) w0 rest q0 hx hfw hm0
+          · cases hmm : (S.dfa it.ty).matchType q0 (S.tyOf fst) with
+            | none => rfl
+            | some y => exact absurd (hlab it.ty q0 _ (Dfa.mem_of_matchType hmm)) hx
+        have hq1' : q1 = q0 := by
+          rw [hinj] at hq1
+          simpa [Schema.types, Dfa.run] using hq1.symm
+        rw [hl2, hinj, hq1', hitty0, takeLoop_nomatch S _ _ _ _ _ fst rest' 0 q0 _ hnm] at htk
+        have := pure_ok htk
+        rw [hl2, ← this, hq1']
+        exact ⟨rfl, by simp⟩
+    obtain ⟨htk0, hlne⟩ := hnothing
+    subst htk0
+    have hsp' : rspineOK f.frontierDepth c2.2 := rspineOK_le _ _ _ (by rw [hc2len]; omega) hc2s
+    have hpe : p = c2.2 := by
+      have := addToFragment_nil _ _ hsp'
+      simp only [fromArray, addNodes, List.foldl_nil] at hp
+      rw [this] at hp
+      simpa using hp.symm
+    subst hpe
+    have hte : ((0 : Nat) == lvl.2.length) = false := by
+      cases hl : lvl.2 with
+      | nil => exact absurd hl hlne
+      | cons a l => rfl
+    simp only [hte, Bool.false_and, Bool.false_eq_true, if_false] at hc3 hpush
+    have := pure_ok hc3
+    subst this
+    have e0 : (-1 : Int).toNat = 0 := rfl
+    rw [e0] at hpush
+    have := pure_ok hpush
+    subst this
+    exact ⟨hset_ok, by intro h0; have := congrArg List.length h0; rw [hset_len, hc2len] at this; simp at this,
+      by rw [hset_len]; exact hc2s⟩
+  | nil =>
+    have hc2e : c2 = c1 := by
+      rw [hws] at hc2
+      exact (pure_ok hc2).symm
+    subst hc2e
+    have hlen : c2.1.length = f.frontierDepth + 1 := hc1len
+    have hc2s' : rspineOK f.frontierDepth c2.2 := by
+      rw [hlen, Nat.add_sub_cancel] at hc1s; exact hc1s
+    obtain ⟨p0, hp0, hp0s, _⟩ := addToFragment_ok f.frontierDepth c2.2 (fromArray tk.2.2) hc2s'
+    have hpe : p = p0 := by rw [hp0] at hp; simpa using hp.symm
+    subst hpe
+    -- how many levels are pushed
+    cases hk : ((if (tk.1 == lvl.2.length) = true then
+        ((fsize lvl.2 : Int) + f.sliceDepth) - ((fsize st.unplaced.content : Int) - st.unplaced.openEnd)
+        else -1) : Int).toNat with
+    | zero =>
+      rw [hk] at hpush
+      have := pure_ok hpush
+      subst this
+      rcases ite_ok_cases hc3 with ⟨hcond, hc3⟩ | ⟨_, hc3⟩
+      · simp only [Bool.and_eq_true, decide_eq_true_eq] at hcond
+        have hne3 : c2.1.set f.frontierDepth ⟨item.ty, some tk.2.1⟩ ≠ [] := by
+          intro h0; have := congrArg List.length h0; rw [hset_len, hlen] at this; simp at this
+        obtain ⟨r, hr, hr1, hr2⟩ := closeFrontierNode_ok S hdet hf _ p hset_ok hne3
+          (by rw [hset_len, hlen, Nat.add_sub_cancel]; exact hp0s)
+        have hce : c3 = r := by rw [hr] at hc3; simpa using hc3.symm
+        subst hce
+        refine ⟨by rw [hr1]; exact hset_ok.dropLast, ?_, hr2⟩
+        intro h0
+        have := congrArg List.length h0
+        rw [hr1, List.length_dropLast, hset_len, hlen] at this
+        simp only [List.length_nil] at this
+        have h2 := hcond.2
+        rw [hset_len, hlen] at h2
+        omega
+      · have := pure_ok hc3
+        subst this
+        exact ⟨hset_ok, by intro h0; have := congrArg List.length h0; rw [hset_len, hlen] at this; simp at this,
+          by rw [hset_len, hlen, Nat.add_sub_cancel]; exact hp0s⟩
+    | succ k =>
+      -- the run went to the end of the fragment and the fragment reaches into the open end
+      have hte : (tk.1 == lvl.2.length) = true := by
+        cases hb : (tk.1 == lvl.2.length) with
+        | true => rfl
+        | false => rw [hb] at hk; simp at hk
+      rw [hte] at hk
+      simp only [if_true] at hk
+      have hoec : ((fsize lvl.2 : Int) + f.sliceDepth) - ((fsize st.unplaced.content : Int) - st.unplaced.openEnd)
+          = ((k + 1 : Nat) : Int) := by omega
+      simp only [hte, if_true, hoec] at hc3 hpush htk
+      have hnn : ¬ (((k + 1 : Nat) : Int) < 0) := by omega
+      simp only [hnn, decide_false, Bool.false_and, Bool.and_false,
+        Bool.false_eq_true, if_false] at hc3
+      have := pure_ok hc3
+      subst this
+      simp only [Int.toNat_natCast] at hpush
+      obtain ⟨hl4, hok4, hne4⟩ := pushOpenEnd_spec S (k + 1) lvl.2 _ fr4 hpush hset_ok
+      have hsp4 := placeTaken_spine S (S.dfa item.ty) item.ty st.unplaced f.sliceDepth lvl.2 hcon
+        (hne4 (by omega)) hU1 hU2 hsz k hoec q1 (f.inject.getD []) tk htk (by simpa using hte) c2.2 p
+        f.frontierDepth hp
+      refine ⟨hok4, ?_, ?_⟩
+      · intro h0
+        have := congrArg List.length h0
+        rw [hl4] at this
+        simp at this
+      · rw [hl4, hset_len, hlen]
+        rw [show f.frontierDepth + 1 + (k + 1) - 1 = f.frontierDepth + 1 + k by omega]
+        exact hsp4
+
 end PM
